@@ -418,10 +418,10 @@ pub fn get_op_log_size() -> (u64, u64) {
 
 pub fn read_operations_since(since: u64) -> HashMap<String, OpLogRecord> {
     let mut opps_since = HashMap::new();
-    let f = get_log_file_read_mode(&Oplog::get_op_log_file_name());
-    read_operations_since_from_file(f, since, &mut opps_since);
-
-    let oplog_entries = get_op_log_entries_by_creation_date();
+    // A later record of a (db, key) replaces the earlier one in the map, so the files are read
+    // from the oldest rotated file to the newest, and the live file last
+    let mut oplog_entries = get_op_log_entries_by_creation_date(); // newest first
+    oplog_entries.reverse();
     for oplog_file_entry in oplog_entries {
         let file_name = oplog_file_entry.file_name().into_string().unwrap();
         if file_name.ends_with(".op") {
@@ -430,6 +430,8 @@ pub fn read_operations_since(since: u64) -> HashMap<String, OpLogRecord> {
             read_operations_since_from_file(f, since, &mut opps_since);
         }
     }
+    let f = get_log_file_read_mode(&Oplog::get_op_log_file_name());
+    read_operations_since_from_file(f, since, &mut opps_since);
 
     opps_since
 }
